@@ -812,8 +812,11 @@ pub mod system_time_conversion {
             }
             Err(e) => {
                 // Safely convert to i64 microseconds (negative), or return None.
+                // i64::MIN has no positive counterpart in i64, so negate in i128.
                 let micros: u128 = e.duration().as_micros();
-                i64::try_from(micros).ok().and_then(i64::checked_neg)
+                i128::try_from(micros)
+                    .ok()
+                    .and_then(|micros| i64::try_from(-micros).ok())
             }
         }
     }
